@@ -33,6 +33,8 @@ def make_rep(kind, name, space_json):
 def objects_of(types, colors):
     out = []
     for t in types:
+        if t in ('NoneGridObject', 'Hidden'):
+            continue   # listed explicitly in a space: they are added by the callers where they may occur
         for s in range(3 if t == 'Door' else 1):
             for c in (['NONE'] + list(colors) if t in COLORED else ['NONE']):
                 if t == 'Box':
@@ -92,7 +94,8 @@ def conv_record(rec_id, kind, name, space_json, st_json, rep=None, gym_space=Non
     for k, v in conv.items():
         rec['dtypes'][k] = str(v.dtype)
         rec['contains'][k] = bool(sp[k].contains(v))
-        rec['gymcontains'][k] = bool(gym_space[k].contains(v.astype(gym_space[k].dtype))) and bool(
+        # gym's own membership test on the array as returned (dtype included)
+        rec['gymcontains'][k] = bool(gym_space[k].contains(v)) and bool(
             np.all(gym_space[k].low <= v) and np.all(v <= gym_space[k].high) and v.shape == gym_space[k].shape)
         if k == 'agent':
             ynum, xnum = float(v[0]) * (h - 1), float(v[1]) * (w - 1)
